@@ -53,9 +53,11 @@ VARIABLES l,
           lk, lf, ll,    \* log bounds known? / first, last (0, 0 = empty)
           op,            \* the API call in progress: [k, first, n, cons, min, max]
           ncommit,       \* metadata commits seen inside the current call
+          prev,          \* the metadata before the first commit of the current call / background rotation
+          rb,            \* the file creation that follows a commit failed: the transaction has to be rolled back
           viol, cnt      \* recorded mismatches / number of clause evaluations per clause family
 
-vars == <<l, mk, meta, dk, dir, lk, lf, ll, op, ncommit, viol, cnt>>
+vars == <<l, mk, meta, dk, dir, lk, lf, ll, op, ncommit, prev, rb, viol, cnt>>
 
 Ev == Trace[l]
 NoOp == [k |-> "none", first |-> 0, n |-> 0, cons |-> FALSE, min |-> 0, max |-> 0]
@@ -78,16 +80,32 @@ DClass(mn, mx) ==
 StoreLegal(o) == o.n = 0 \/ (o.cons /\ o.first >= 1 /\ (Emp \/ o.first = ll + 1))
 
 Init == /\ l = 1 /\ mk = FALSE /\ meta = NoMeta /\ dk = FALSE /\ dir = {} /\ lk = FALSE /\ lf = 0 /\ ll = 0
-        /\ op = NoOp /\ ncommit = 0 /\ viol = {}
-        /\ cnt = [shape |-> 0, wf |-> 0, file |-> 0, bounds |-> 0, dirx |-> 0]
+        /\ op = NoOp /\ ncommit = 0 /\ prev = NoMeta /\ rb = FALSE /\ viol = {}
+        /\ cnt = [shape |-> 0, wf |-> 0, file |-> 0, bounds |-> 0, dirx |-> 0,
+                  \* transactions whose committed result was compared, per kind (vacuity guard)
+                  Init |-> 0, Rotate |-> 0, OpenRotate |-> 0, Reset |-> 0, Head |-> 0, Tail |-> 0, Recommit |-> 0]
 
 Bump(f) == [cnt EXCEPT ![f] = @ + 1]
 \* record every clause of the set cs (a set of strings) as violated at this line
 Rec(cs) == viol' = viol \cup {[line |-> l, clause |-> c] : c \in cs}
 
+(* an injected I/O failure (fault runs, C10): the only one that changes what the engine has to do next at this level   *)
+(* is a failed file creation after a metadata commit; any failure makes the directory clause moot until the next Open *)
+(* (a failed unlink leaves its file, C13 is about crash / no-fault histories)                                         *)
+Failed ==
+  /\ rb' = IF Ev.call = "mcommit" THEN FALSE        \* the roll-back itself failed: the WAL refuses writes until reopened
+           ELSE rb \/ (Ev.call = "create" /\ mk /\ ncommit > 0 /\ meta.segs # <<>> /\ Ev.id = TailOf(meta.segs).id)
+  /\ dk' = FALSE
+  /\ dir' = IF Ev.call = "create" /\ Ev.res = "err-left" THEN dir \cup {Ev.id} ELSE dir
+  /\ UNCHANGED <<mk, meta, lk, lf, ll, op, ncommit, prev, viol, cnt>>
+
 (* the metadata the current call has to commit, or "none" *)
 Expected(new) ==
-  IF Ev.bg \/ op.k = "none" THEN
+  IF rb THEN
+       \* fix F15 (WalImpl!DelCreateFails / RotateCreateFails with Recommit, KeepNextId): the state that stays in use is
+       \* committed again, with the advanced next id (the abandoned id may name a file that was left behind)
+       [k |-> "Recommit", v |-> [next |-> meta.next, segs |-> prev.segs]]
+  ELSE IF Ev.bg \/ op.k = "none" THEN
        IF lk THEN [k |-> "Rotate", v |-> RotateResult(meta.segs, meta.next, ll)] ELSE [k |-> "skip", v |-> NoMeta]
   ELSE IF op.k = "open" THEN
        IF meta.segs = <<>> \/ TailOf(meta.segs).sealed THEN [k |-> "Init", v |-> InitResult(meta.segs, meta.next)]
@@ -120,19 +138,21 @@ Commit ==
                    ELSE IF ex.v = new THEN {} ELSE {"Shape" \o ex.k})
   IN /\ Rec(bad)
      /\ meta' = new /\ mk' = TRUE /\ ncommit' = ncommit + 1
-     /\ cnt' = [cnt EXCEPT !.wf = @ + 1, !.shape = IF ex.k = "skip" THEN @ ELSE @ + 1]
+     /\ prev' = (IF rb THEN prev ELSE meta) /\ rb' = FALSE
+     /\ cnt' = LET c1 == [cnt EXCEPT !.wf = @ + 1, !.shape = IF ex.k = "skip" THEN @ ELSE @ + 1] IN
+               IF ex.k \in {"skip", "none"} THEN c1 ELSE [c1 EXCEPT ![ex.k] = @ + 1]
      /\ UNCHANGED <<dk, dir, lk, lf, ll, op>>
 
 Load ==
   LET ld == [next |-> Ev.next, segs |-> SegsOf(Ev)] IN
   /\ Rec(IF mk /\ meta # ld THEN {"LoadIsCommitted"} ELSE {})
   /\ meta' = ld /\ mk' = TRUE
-  /\ UNCHANGED <<dk, dir, lk, lf, ll, op, ncommit, cnt>>
+  /\ UNCHANGED <<dk, dir, lk, lf, ll, op, ncommit, cnt, prev, rb>>
 
 List ==
   /\ Rec(IF dk /\ dir # ToSet(Ev.ids) THEN {"ListIsDir"} ELSE {})
   /\ dir' = ToSet(Ev.ids) /\ dk' = TRUE
-  /\ UNCHANGED <<mk, meta, lk, lf, ll, op, ncommit, cnt>>
+  /\ UNCHANGED <<mk, meta, lk, lf, ll, op, ncommit, cnt, prev, rb>>
 
 Create ==
   LET t == TailOf(meta.segs)
@@ -141,13 +161,13 @@ Create ==
   IN /\ Rec(bad)
      /\ dir' = dir \cup {Ev.id}
      /\ cnt' = IF mk THEN Bump("file") ELSE cnt
-     /\ UNCHANGED <<mk, meta, dk, lk, lf, ll, op, ncommit>>
+     /\ UNCHANGED <<mk, meta, dk, lk, lf, ll, op, ncommit, prev, rb>>
 
 Unlink ==
   /\ Rec(IF mk /\ Ev.id \in Ids(meta.segs) THEN {"UnlinkUnlisted"} ELSE {})
   /\ dir' = dir \ {Ev.id}
   /\ cnt' = IF mk THEN Bump("file") ELSE cnt
-  /\ UNCHANGED <<mk, meta, dk, lk, lf, ll, op, ncommit>>
+  /\ UNCHANGED <<mk, meta, dk, lk, lf, ll, op, ncommit, prev, rb>>
 
 OpenFile ==      \* openr / openw during Open
   LET match == {k \in 1..Len(meta.segs) : meta.segs[k].id = Ev.id /\ meta.segs[k].base = Ev.base}
@@ -155,21 +175,21 @@ OpenFile ==      \* openr / openw during Open
             /\ \A k \in match : meta.segs[k].sealed = (Ev.call = "openr")
   IN /\ Rec(IF mk /\ op.k = "open" /\ ~ok THEN {"OpenMatchesMeta"} ELSE {})
      /\ cnt' = IF mk /\ op.k = "open" THEN Bump("file") ELSE cnt
-     /\ UNCHANGED <<mk, meta, dk, dir, lk, lf, ll, op, ncommit>>
+     /\ UNCHANGED <<mk, meta, dk, dir, lk, lf, ll, op, ncommit, prev, rb>>
 
 WriteSync ==
   /\ Rec(IF mk /\ meta.segs # <<>> /\ Ev.id # TailOf(meta.segs).id THEN {"WriteOnlyTail"} ELSE {})
   /\ cnt' = IF mk THEN Bump("file") ELSE cnt
-  /\ UNCHANGED <<mk, meta, dk, dir, lk, lf, ll, op, ncommit>>
+  /\ UNCHANGED <<mk, meta, dk, dir, lk, lf, ll, op, ncommit, prev, rb>>
 
 Inv ==
   /\ op' = [k |-> Ev.opk, first |-> Ev.afirst, n |-> Ev.an, cons |-> Ev.acons, min |-> Ev.amin, max |-> Ev.amax]
-  /\ ncommit' = 0
+  /\ ncommit' = 0 /\ rb' = FALSE
   \* between calls (background work of the previous call has quiesced) the directory is exactly the listed segments
   /\ IF mk /\ dk /\ Ev.opk # "open"
      THEN /\ Rec(IF dir = Ids(meta.segs) THEN {} ELSE {"DirExact"}) /\ cnt' = Bump("dirx")
      ELSE /\ UNCHANGED viol /\ UNCHANGED cnt
-  /\ UNCHANGED <<mk, meta, dk, dir, lk, lf, ll>>
+  /\ UNCHANGED <<mk, meta, dk, dir, lk, lf, ll, prev>>
 
 (* the contract's bounds after the call that returns now *)
 NewBounds ==
@@ -226,19 +246,19 @@ Ret ==
            THEN /\ Rec(IF Bnd = obs THEN {} ELSE {"BoundsMatch"}) /\ cnt' = Bump("bounds")
            ELSE UNCHANGED <<viol, cnt>>
      ELSE /\ lk' = FALSE /\ UNCHANGED <<lf, ll, viol, cnt>>
-  /\ UNCHANGED <<mk, meta, dk, dir>>
+  /\ UNCHANGED <<mk, meta, dk, dir, prev, rb>>
 
-Skip == UNCHANGED <<mk, meta, dk, dir, lk, lf, ll, op, ncommit, viol, cnt>>
+Skip == UNCHANGED <<mk, meta, dk, dir, lk, lf, ll, op, ncommit, prev, rb, viol, cnt>>
 
 Step ==
   /\ l <= Len(Trace) /\ l' = l + 1
   /\ IF Ev.ev = "reset" THEN
         /\ mk' = FALSE /\ meta' = NoMeta /\ dk' = FALSE /\ dir' = {} /\ lk' = FALSE /\ lf' = 0 /\ ll' = 0
-        /\ op' = NoOp /\ ncommit' = 0 /\ UNCHANGED <<viol, cnt>>
+        /\ op' = NoOp /\ ncommit' = 0 /\ prev' = NoMeta /\ rb' = FALSE /\ UNCHANGED <<viol, cnt>>
      ELSE IF Ev.ev # "io" THEN Skip
      ELSE IF Ev.call = "inv" THEN Inv
      ELSE IF Ev.call = "ret" THEN Ret
-     ELSE IF Ev.res # "ok" THEN Skip
+     ELSE IF Ev.res # "ok" THEN (IF Ev.call \in {"create", "write", "sync", "dirsync", "unlink", "mcommit"} THEN Failed ELSE Skip)
      ELSE IF Ev.call = "mcommit" THEN Commit
      ELSE IF Ev.call = "mload" THEN Load
      ELSE IF Ev.call = "list" THEN List
@@ -249,7 +269,7 @@ Step ==
      ELSE Skip
 
 Finish == /\ l = Len(Trace) + 1 /\ PrintT(<<"IMPLTRACE", ToJson([v |-> viol, cnt |-> cnt])>>) /\ l' = l + 1
-          /\ UNCHANGED <<mk, meta, dk, dir, lk, lf, ll, op, ncommit, viol, cnt>>
+          /\ UNCHANGED <<mk, meta, dk, dir, lk, lf, ll, op, ncommit, prev, rb, viol, cnt>>
 
 Next == Step \/ Finish
 Spec == Init /\ [][Next]_vars
